@@ -151,7 +151,7 @@ type c17Stats struct {
 	fenceSet, fenceCleared, fenceReset, gcDeleted, learnerAdded          atomic.Int64
 	// bookkeeping commands on terminal tasks (index 0 claim, 1 adv, 2 fail): accepted while another task is active
 	terminalTouchedWithSuccessor                                        [3]atomic.Int64
-	terminalTouchedAlone, reviveOK, reviveRefusedActive                 atomic.Int64
+	reviveOK, reviveRefusedActive                                       atomic.Int64
 	createRefusedActiveBesideTerminal, createOKBesideTouchedTerminal    atomic.Int64
 }
 
@@ -184,8 +184,8 @@ func c17LT(id string) bool { return id != "T2" }
 
 // Bounds on the bookkeeping commands sent for a task that is already terminal (set per tier).
 var (
-	c17TouchBound int64 = 1     // rewrites per terminal incarnation of a task (UpdatedAtMS - CompletedAtMS)
-	c17TouchAlone       = false // also generate them while no other task of the channel is active
+	c17TouchBound  int64 = 1     // rewrites per terminal incarnation of a task (UpdatedAtMS - CompletedAtMS), sent while another task is active
+	c17ReviveAlone       = false // revive also while no other task of the channel is active (then the task really becomes active again)
 )
 
 func c17SeedMeta() metadb.ChannelRuntimeMeta {
@@ -376,11 +376,11 @@ func (in *c17Inst) Events() []string {
 		for oid, o := range in.v.Tasks {
 			successor = successor || (oid != id && o.IsActive())
 		}
-		touch := !t.IsActive() && (successor || c17TouchAlone) && t.UpdatedAtMS-t.CompletedAtMS < c17TouchBound
+		touch := !t.IsActive() && successor && t.UpdatedAtMS-t.CompletedAtMS < c17TouchBound
 		if touch {
 			evs = append(evs, "claim:"+id, "adv:"+id+":fresh", "fail:"+id)
 		}
-		if !t.IsActive() && (successor || touch) {
+		if !t.IsActive() && (successor || c17ReviveAlone) {
 			evs = append(evs, "revive:"+id)
 		}
 		evs = append(evs, "setfence:"+id, "resetfence:"+id, "clearfence:"+id)
@@ -783,8 +783,6 @@ func (in *c17Inst) Apply(evl string, _ *mc.Env) (string, error) {
 			if changed && postHas && !postT.IsActive() {
 				if otherActive {
 					in.st.terminalTouchedWithSuccessor[map[string]int{"claim": 0, "adv": 1, "fail": 2}[op]].Add(1)
-				} else {
-					in.st.terminalTouchedAlone.Add(1)
 				}
 			}
 		case "revive":
@@ -912,16 +910,16 @@ func TestVerifC17(t *testing.T) {
 		}
 	}()
 	st := &c17Stats{}
-	c17TouchBound, c17TouchAlone = ev.Pick(r, int64(1), int64(2)), r.Thorough()
+	c17TouchBound, c17ReviveAlone = 1, r.Thorough()
 	res := mc.Run(r, mc.System{
 		Name:      "migration-commands",
 		New:       func() mc.Instance { return c17New(st) },
-		MaxDepth:  ev.Pick(r, 7, 10),
+		MaxDepth:  ev.Pick(r, 7, 9),
 		MaxStates: ev.Pick(r, int64(200000), int64(3000000)),
 		Bounds: map[string]any{"tasks": "T1 leader transfer 1->2 (created in WriteFence), T2 replica replace 3->4 (created in AddLearner), T3 leader transfer 1->2 under a fresh id (created in WriteFence)", "channels": 1,
 			"stale_fields": c17StaleFields,
-			"terminal_task_bookkeeping": fmt.Sprintf("claim / adv (all variants) / fail on a terminal task: at most %d per terminal incarnation, generated while another task is active%s; revive (advance back to Running) while another task is active%s",
-				c17TouchBound, map[bool]string{false: "", true: " and while none is"}[c17TouchAlone], map[bool]string{false: "", true: " and, within the same bound, while none is"}[c17TouchAlone]),
+			"terminal_task_bookkeeping": fmt.Sprintf("claim / adv (all variants) / fail on a terminal task: at most %d per terminal incarnation, generated while another task is active; revive (advance back to Running) while another task is active%s",
+				c17TouchBound, map[bool]string{false: "", true: " and while none is"}[c17ReviveAlone]),
 			"third_task_id": "T3 is created (plain create only) only while the row T1 exists (same transfer under a fresh id); once it exists it has the full alphabet of T1", "seed_meta": "epoch 1/1, replicas=ISR={1,2,3}, leader 1, MinISR 2"},
 		Note: "merging on all task rows + runtime meta row + GetActive and ListActive answers (read back through the metadb API) + cutover bookkeeping; requests are rebuilt from the rows read back, so the canonical state determines every future request",
 	})
@@ -948,8 +946,7 @@ func TestVerifC17(t *testing.T) {
 	g("claim-accepted-on-terminal-task-while-successor-active", st.terminalTouchedWithSuccessor[0].Load(), 1)
 	g("advance-accepted-on-terminal-task-while-successor-active", st.terminalTouchedWithSuccessor[1].Load(), 1)
 	g("fail-accepted-on-terminal-task-while-successor-active", st.terminalTouchedWithSuccessor[2].Load(), 1)
-	if c17TouchAlone {
-		g("bookkeeping-accepted-on-terminal-task-without-successor", st.terminalTouchedAlone.Load(), 1)
+	if c17ReviveAlone {
 		g("revive-of-terminal-task-accepted-when-nothing-is-active", st.reviveOK.Load(), 1)
 	}
 	r.Guard("revive-command-is-well-formed", c17ReviveAccepted(), "create:T1 ; fail:T1 ; revive:T1 must leave T1 active (otherwise the refusals counted below say nothing)")
